@@ -27,6 +27,8 @@ Theorems (all over Model/Routing.lean applied to the tables regenerated from /re
                             (magic) of Produce fits the version for every version; LeaveGroup member id below v3
   split_parts_carry_request_fields / split_options_arrive
                             every sub-request a Split method builds sets every wire field of the request (regenerated table)
+  broker_dial_address       the address dialled for a listed broker (regenerated from newBrokerConnGroup) is host:port with an
+                            IPv6 literal host in brackets
   layout_omits_internal     makeLayout never lists an internal topic, so refreshMetadata cannot see one appear (observation)
   negotiated_unlisted       an API the broker does not list: version 0 if the client supports it, else refused client-side
   parts_cover_splitters     every Splitter type of the source has a split model (regenerated table, decide)
@@ -763,5 +765,13 @@ theorem split_options_arrive (v : Int) :
   simp [optionOK, optionSince, optionArrives, h1, h2, h3]
 
 end splitfields
+
+/-! ## the dial address -/
+
+/-- **broker_dial_address**: for every host / port the metadata may list — IPv6 literals included — the address the
+pool dials for the broker (regenerated from newBrokerConnGroup) is the one a dialer can take apart again -/
+theorem broker_dial_address (host : String) (port : Int) :
+    dialAddress (host, port) = KV.Spec.Routing.hostPort host port := by
+  simp [dialAddress, brokerDialAddress, KV.Spec.Routing.hostPort]
 
 end KV.Props.C12
